@@ -4,9 +4,9 @@
 package world
 
 import (
-	"github.com/cosmos/cosmos-sdk/types/address"
 	"encoding/json"
 	"fmt"
+	"github.com/cosmos/cosmos-sdk/types/address"
 	"strings"
 	"time"
 
@@ -63,8 +63,8 @@ type Config struct {
 	NativeStake    int64             // genesis native tokens per validator
 	CommunityTax   string
 	MaxValidators  uint32
-	FullPipeline   bool // block boundary = ModuleManager End/BeginBlock, slash = StakingKeeper.Slash
-	ExtraNativeDel []int64 // additional genesis native stake multipliers (unused when nil)
+	FullPipeline   bool     // block boundary = ModuleManager End/BeginBlock, slash = StakingKeeper.Slash
+	ExtraNativeDel []int64  // additional genesis native stake multipliers (unused when nil)
 	ExtraDenoms    []string // denoms whose balances snapshots read even when no asset record / queue entry names them
 }
 
@@ -89,18 +89,18 @@ func DefaultConfig() Config {
 
 // World is one real App plus the actors of the scenario.
 type World struct {
-	App   *allianceapp.App
-	Cfg   Config
-	Vals  []sdk.ValAddress
-	Cons  []sdk.ConsAddress
-	Dels  []sdk.AccAddress // D0..Dn-1 alliance delegators; also usable as native delegators
-	Gen   sdk.AccAddress   // genesis account that self-bonded every validator (native delegator "N")
-	Out   sdk.AccAddress   // funded outsider (probes, gifts)
-	Root  sdk.Context
-	Log   *CapLogger
-	Auth  string
+	App                        *allianceapp.App
+	Cfg                        Config
+	Vals                       []sdk.ValAddress
+	Cons                       []sdk.ConsAddress
+	Dels                       []sdk.AccAddress // D0..Dn-1 alliance delegators; also usable as native delegators
+	Gen                        sdk.AccAddress   // genesis account that self-bonded every validator (native delegator "N")
+	Out                        sdk.AccAddress   // funded outsider (probes, gifts)
+	Root                       sdk.Context
+	Log                        *CapLogger
+	Auth                       string
 	ModAddr, PoolAddr, FeeAddr sdk.AccAddress
-	ExtraDenoms []string // additional denoms whose balances snapshots should read
+	ExtraDenoms                []string // additional denoms whose balances snapshots should read
 }
 
 // CapLogger captures error-level log lines (staking swallows hook errors and only logs them).
